@@ -25,8 +25,7 @@ for dp, dn, fn in os.walk(os.path.join(REPO, 'dadi')):
             if alpha.unsafe(node):
                 continue
             names = alpha.binding_order(node)
-            if names:
-                d[q] = names
+            d[q] = names          # also functions without locals: a local that appears later is then known to be new
         if d:
             out[rel] = d
 # operand order of the commutative operations of the confirmed form (after the same normalisations)
